@@ -10,6 +10,7 @@ Expr:
   ('bin', op, a, b)          op in + - * ++ && ||
   ('cmpe', op, a, b)         comparison used as a boolean expression
   ('not_e', a)
+  ('neg', a)               unary minus
   ('field', e, f)
   ('if', c, t, e)
   ('fcall', F, args)         functional call; args: ((name|None, expr), ...)
@@ -36,7 +37,7 @@ Program: {'rules': [...], 'annotations': [...], 'preds': {name: meta}, 'order': 
 """
 
 AGG_OPS = ['+=', 'Min=', 'Max=', 'Count=', 'List=', 'Set=', 'ArgMin=', 'ArgMax=']
-COMB_NAME = {'+=': 'Sum', 'Min=': 'Min', 'Max=': 'Max', 'Count=': 'Count', 'List=': 'List', 'Set=': 'Set',
+COMB_NAME = {'ArgMin2=': 'ArgMin2', 'ArgMax2=': 'ArgMax2', 'ArgMin3=': 'ArgMin3', '+=': 'Sum', 'Min=': 'Min', 'Max=': 'Max', 'Count=': 'Count', 'List=': 'List', 'Set=': 'Set',
              'ArgMin=': 'ArgMin', 'ArgMax=': 'ArgMax'}
 
 
@@ -69,7 +70,7 @@ def walk_expr(e, fn):
   elif k in ('bin', 'cmpe'):
     walk_expr(e[2], fn)
     walk_expr(e[3], fn)
-  elif k == 'not_e':
+  elif k in ('not_e', 'neg'):
     walk_expr(e[1], fn)
   elif k == 'field':
     walk_expr(e[1], fn)
@@ -106,7 +107,7 @@ def expr_vars(e, into=None, enter_combines=True):
     elif k in ('bin', 'cmpe'):
       go(x[2])
       go(x[3])
-    elif k == 'not_e':
+    elif k in ('not_e', 'neg'):
       go(x[1])
     elif k == 'field':
       go(x[1])
@@ -166,7 +167,7 @@ def map_expr(e, f_expr, f_prop):
     r = ('rec', tuple((f, map_expr(x, f_expr, f_prop)) for f, x in e[1]))
   elif k in ('bin', 'cmpe'):
     r = (k, e[1], map_expr(e[2], f_expr, f_prop), map_expr(e[3], f_expr, f_prop))
-  elif k == 'not_e':
+  elif k in ('not_e', 'neg'):
     r = (k, map_expr(e[1], f_expr, f_prop))
   elif k == 'field':
     r = (k, map_expr(e[1], f_expr, f_prop), e[2])
